@@ -149,6 +149,9 @@ def alt_accepts(alt: dict, op: dict, isa: Isa) -> bool:
     if kind == 'indirect_register':
         if k == 'indidx' and op['r'].lower() == alt['register'].lower() and 'offset' not in alt:
             raise Unspecified('indexed form offered to an indirect register configured without an offset')
+        if k == 'indidx' and op['r'].lower() == alt['register'].lower() and op['idx']['k'] in ('expr', 'enum') and _same_deco(alt, op):
+            # "[hl + zf]" is also an indirect register with the offset expression "zf"
+            raise Unspecified('indexed form with an expression index offered to an indirect register that takes an offset')
         if not (k == 'indreg' and op['r'].lower() == alt['register'].lower() and _same_deco(alt, op)):
             return False
         if op.get('off') is not None and 'offset' not in alt:
